@@ -347,6 +347,36 @@ impl ClockCache {
     }
 }
 
+#[cfg(feature = "verif")]
+impl ClockCache {
+    /// (key, size, reference bit, bound to a record generation, value length) per entry.
+    pub fn verif_entries(&self) -> Vec<(Vec<u8>, usize, bool, bool, usize)> {
+        let mut entries = Vec::new();
+        for bucket in &self.buckets {
+            for entry in bucket.read().iter() {
+                entries.push((
+                    entry.key.clone(),
+                    entry.size,
+                    entry.reference_bit.load(Ordering::Relaxed),
+                    entry.record.is_some(),
+                    entry.value.len(),
+                ));
+            }
+        }
+        entries
+    }
+
+    /// Set watermarks in bytes (the public setter only takes whole MiB).
+    pub fn verif_set_watermarks(&self, high: usize, low: usize) {
+        self.high_watermark.store(high, Ordering::Relaxed);
+        self.low_watermark.store(low, Ordering::Relaxed);
+    }
+
+    pub fn verif_entry_overhead() -> usize {
+        std::mem::size_of::<CacheEntry>()
+    }
+}
+
 fn can_replace_generation(cached: Option<&Weak<Record>>, incoming: Option<&Arc<Record>>) -> bool {
     let Some(incoming) = incoming else {
         return true;
